@@ -1,5 +1,8 @@
 import AFProofs.Lemmas.Persist
 import AFProofs.Lemmas.DictForm
+import AFProofs.Lemmas.DictJson
+import AFProofs.Lemmas.DictJsonErase
+import AFProofs.Lemmas.DictJsonIter
 
 /-!
 # C08 — models survive every persistence round trip
@@ -158,5 +161,207 @@ theorem dict_form_instance_with_arith [Inhabited V] (ops : Ops V) (t : Node V) (
 
 example : (walk (dictRoundTrip witness 100)).map (·.2) = [100, 101, 100, 100, 101] := by decide
 example : paths (dictRoundTrip witness 100) = paths (reloadDict witness 100) := by decide
+
+end AF.C08
+
+namespace AF.C08
+open AF
+
+variable {V : Type}
+
+/-! ## the dictionary / JSON form the library actually writes (`AFModel/DictJson.lean`)
+
+`PN` carries everything the form carries (descriptors, ids, class paths, constants, fixed components,
+`item_number`, tuples, arithmetic / modified priors, arrays and the **assertions** of every model and
+collection); `toDV` is `dict()`, `fromDV` is `from_dict` with its `loaded_ids` (arguments before
+assertions). All statements are for **every** composition - arithmetic relations and assertions
+included - and every class table `dflt`. -/
+
+/-- **reader ∘ writer is a renaming of the whole composition**: everything - paths, descriptors,
+constants, fixed components, relations and every assertion - comes back as it was, the prior identities
+renamed by the one map `rtSigma t base` (operand attribute names of arithmetic priors become
+`left_`/`right_`, a fixed component rebuilt by its constructor holds its class defaults: `canonPN`). -/
+theorem dict_json_reader_writer_is_renaming (dflt : String → List (String × Scal V)) (t : PN V) (base : Nat) :
+    dictRT dflt t base = renamePN (rtSigma t base) (canonPN dflt t) := dictRT_eq dflt t base
+
+/-- **… and the renaming never merges two parameters** (it is a function, so it never splits one):
+injective on every id the dictionary mentions, those met only inside assertions included. -/
+theorem dict_json_never_merges (t : PN V) (base : Nat) (i j : Nat)
+    (hi : i ∈ pnLoadOrder t) (hj : j ∈ pnLoadOrder t) (he : rtSigma t base i = rtSigma t base j) : i = j :=
+  rtSigma_injOn t base i hi j hj he
+
+/-- the **assertions** of a model come back as the same expressions over the renamed parameters - renamed by
+the same map as the model's own parameters -/
+theorem dict_json_assertions_kept_model (dflt : String → List (String × Scal V)) (cp : String)
+    (attrs : List (String × PN V)) (asserts : List (PN V)) (base : Nat) :
+    dictRT dflt (.model cp attrs asserts) base =
+      .model cp (renamePNAttrs (rtSigma (.model cp attrs asserts) base) (canonPNAttrs dflt attrs))
+        (renamePNList (rtSigma (.model cp attrs asserts) base) (canonPNList dflt asserts)) := by
+  rw [dictRT_eq]; simp [canonPN, renamePN]
+
+/-- the same for a collection (its counter of appended items is kept too) -/
+theorem dict_json_assertions_kept_collection (dflt : String → List (String × Scal V)) (k : Nat)
+    (attrs : List (String × PN V)) (asserts : List (PN V)) (base : Nat) :
+    dictRT dflt (.coll k attrs asserts) base =
+      .coll k (renamePNAttrs (rtSigma (.coll k attrs asserts) base) (canonPNAttrs dflt attrs))
+        (renamePNList (rtSigma (.coll k attrs asserts) base) (canonPNList dflt asserts)) := by
+  rw [dictRT_eq]; simp [canonPN, renamePN]
+
+/-- what the walk and the instance construction see of the reloaded model: the skeleton of the original,
+renamed, with the reload names of arithmetic operands -/
+theorem dict_json_skeleton (sig : String → List String) (dflt : String → List (String × Scal V))
+    (t : PN V) (base : Nat) :
+    erase sig (dictRT dflt t base) = renameIds (rtSigma t base) (canonNames (erase sig t)) := by
+  rw [dictRT_eq, erase_rename, erase_canon]
+
+/-- **Supplying the same value for each parameter yields the equal instance - for every composition**,
+arithmetic priors included (`NoArith` is no longer a hypothesis: the instance does not depend on operand
+names). -/
+theorem dict_json_same_instance [Inhabited V] (ops : Ops V) (sig : String → List String)
+    (dflt : String → List (String × Scal V)) (t : PN V) (base : Nat) (ρ ρ' : Nat → Inst V)
+    (hρ : ∀ i, ρ' (rtSigma t base i) = ρ i) :
+    instW ops ρ' (erase sig (dictRT dflt t base)) = instW ops ρ (erase sig t) := by
+  rw [dict_json_skeleton, same_values_same_instance ops _ _ ρ ρ' hρ, instW_canonNames]
+
+/-- the same for the abstract dictionary form of `DictForm.lean`: `dict_form_roundtrip`'s instance clause
+without its `NoArith` hypothesis -/
+theorem dict_form_same_instance [Inhabited V] (ops : Ops V) (t : Node V) (base : Nat) (ρ ρ' : Nat → Inst V)
+    (hρ : ∀ i, ρ' (sigmaOf (extend { next := base } (loadOrder t)) i) = ρ i) :
+    instW ops ρ' (dictRoundTrip t base) = instW ops ρ t := by
+  rw [dict_form_instance_with_arith ops t base ρ ρ' hρ, instW_canonNames]
+
+/-- **same paths, same count** when no arithmetic prior is held (with them the places *inside* the arithmetic
+prior are renamed: known finding C08-arith-names): the advertised places are the same and the number of
+free parameters is the same -/
+theorem dict_json_paths_count (sig : String → List String) (dflt : String → List (String × Scal V))
+    (t : PN V) (base : Nat) (h : NoArith (erase sig t)) :
+    (walk (erase sig (dictRT dflt t base))).map (·.1) = (walk (erase sig t)).map (·.1) ∧
+    count (erase sig (dictRT dflt t base)) = count (erase sig t) := by
+  rw [dict_json_skeleton, canonNames_of_no_arith _ h]
+  refine ⟨paths_preserved _ _, count_preserved _ _ ?_⟩
+  intro i hi j hj he
+  obtain ⟨x, hx, rfl⟩ := List.mem_map.mp hi
+  obtain ⟨y, hy, rfl⟩ := List.mem_map.mp hj
+  exact rtSigma_injOn t base _ (walk_erase_sub sig t x hx) _ (walk_erase_sub sig t y hy) he
+
+/-- **two places share a parameter after the reload iff they did before** (all compositions; places as the
+reloaded model advertises them) -/
+theorem dict_json_sharing (sig : String → List String) (t : PN V) (base : Nat)
+    (p q : Path) (i j : Nat) (hp : (p, i) ∈ walk (erase sig t)) (hq : (q, j) ∈ walk (erase sig t)) :
+    rtSigma t base i = rtSigma t base j ↔ i = j :=
+  ⟨rtSigma_injOn t base i (walk_erase_sub sig t _ hp) j (walk_erase_sub sig t _ hq), fun h => h ▸ rfl⟩
+
+/-- **repeated round trips** (induction on their number): after any positive number of dictionary round
+trips the model is still one injective renaming of the original (with reload names) - nothing drifts. -/
+theorem dict_json_roundtrips (dflt : String → List (String × Scal V)) (t : PN V) (base step : Nat) :
+    ∀ n : Nat, ∃ σ : Nat → Nat, InjOn σ (pnLoadOrder t) ∧
+      dictRTn dflt t base step (n + 1) = renamePN σ (canonPN dflt t)
+  | 0 => ⟨rtSigma t (base + 0 * step), rtSigma_injOn t _, by simp [dictRTn, dictRT_eq]⟩
+  | n + 1 => by
+      obtain ⟨σ, hσ, ih⟩ := dict_json_roundtrips dflt t base step n
+      let u := dictRTn dflt t base step (n + 1)
+      refine ⟨fun i => rtSigma u (base + (n + 1) * step) (σ i), ?_, ?_⟩
+      · intro i hi j hj he
+        have hu : pnLoadOrder u = (pnLoadOrder t).map σ := by
+          show pnLoadOrder (dictRTn dflt t base step (n + 1)) = _
+          rw [ih, pnLoadOrder_rename, pnLoadOrder_canon]
+        refine hσ i hi j hj (rtSigma_injOn u _ (σ i) ?_ (σ j) ?_ he)
+        · rw [hu]; exact List.mem_map.mpr ⟨i, hi, rfl⟩
+        · rw [hu]; exact List.mem_map.mpr ⟨j, hj, rfl⟩
+      · show dictRT dflt u (base + (n + 1) * step) = _
+        rw [dictRT_eq]
+        show renamePN _ (canonPN dflt (dictRTn dflt t base step (n + 1))) = _
+        rw [ih, canonPN_rename dflt σ _ (by rw [pnLoadOrder_canon]; exact hσ), canonPN_idem, renamePN_comp]
+
+/-- **the same assertions**: supplying the same value for each parameter gives every assertion of the reloaded
+model - at any depth, chained or not, over arithmetic relations or not - the verdict it had before, so the
+reloaded model raises `FitException` for exactly the same vectors. All compositions. -/
+theorem dict_json_same_assertion_verdicts [Inhabited V] (ops : Ops V) (sig : String → List String)
+    (dflt : String → List (String × Scal V)) (t : PN V) (base : Nat) (ρ ρ' : Nat → Inst V)
+    (hρ : ∀ i, ρ' (rtSigma t base i) = ρ i) :
+    assertVerdicts ops sig ρ' (dictRT dflt t base) = assertVerdicts ops sig ρ t := by
+  unfold assertVerdicts
+  rw [dictRT_eq, pnAsserts_rename, pnAsserts_canon]
+  exact verdicts_reload_list ops sig dflt _ ρ ρ' hρ _
+
+/-! ### pickle / dill: consequences of the stated assumption only
+
+The assumption (`AFModel/DictJson.lean`, checked on the real unpickled object on every run): the attribute
+tree is rebuilt and every `id` restored verbatim, i.e. the round trip is the renaming by the identity map. -/
+
+/-- under the assumption a pickle round trip returns the very same composition … -/
+theorem pickle_is_identity (t : PN V) : pickleRT t = t := renamePN_id t
+
+/-- … hence the parameter order (paths in order of prior id), the count and every instance are unchanged -/
+theorem pickle_keeps_order (sig : String → List String) (t : PN V) :
+    pathPriors (erase sig (pickleRT t)) = pathPriors (erase sig t) ∧
+    count (erase sig (pickleRT t)) = count (erase sig t) := by
+  rw [pickle_is_identity]; exact ⟨rfl, rfl⟩
+
+/-- any route that satisfies the assumption keeps the composition through any number of round trips -/
+theorem identity_copy_roundtrips (f : PN V → PN V) (hf : ∀ t, f t = renamePN (fun i => i) t) :
+    ∀ (n : Nat) (t : PN V), Nat.repeat f n t = t
+  | 0, _ => rfl
+  | n + 1, t => by
+      show f (Nat.repeat f n t) = t
+      rw [identity_copy_roundtrips f hf n t, hf t, renamePN_id]
+
+/-! ### database rows: the counter of a rebuilt collection (repaired behaviour, fixes/C08-db-collection-item-number) -/
+
+/-- appending to a collection reloaded from the database never overwrites a member: the counter is beyond every
+positional name -/
+theorem db_counter_beyond_members (ps : List (Option Nat)) (k : Nat) (h : some k ∈ ps) : k < nextPosition ps :=
+  nextPosition_gt ps k h
+
+/-- for a list-built collection (members `0 … n-1`, possibly with named members among them) the counter is the
+original one: `n` -/
+theorem db_counter_of_list_built (ps : List (Option Nat)) (n : Nat)
+    (hall : ∀ k, some k ∈ ps → k < n) (hlast : n = 0 ∨ some (n - 1) ∈ ps) : nextPosition ps = n := by
+  apply Nat.le_antisymm (nextPosition_le_of_all_lt ps n hall)
+  rcases hlast with h | h
+  · omega
+  · have := nextPosition_gt ps (n - 1) h
+    omega
+
+example : nextPosition [some 0, some 1, none, some 2] = 3 := by decide
+example : nextPosition [none, none] = 0 := by decide
+
+/-! ### non-vacuity: prior 7 shared between an argument, a tuple member, an arithmetic relation and a chained
+assertion; prior 5 met first inside the child's assertion and only later as an argument; a fixed component -/
+
+def witnessPN : PN Nat :=
+  let d : PDesc Nat := { kind := .uniform, lo := 0, hi := 1, mean := 0, sigma := 0 }
+  .coll 0
+    [("g", .model "lib.P2" [("a", .prior 7 d), ("b", .lit (.num 25))]
+        [.both (.arith "GreaterThanLessThanAssertion" "lower" "greater" (.prior 5 d) (.prior 7 d))
+               (.arith "GreaterThanLessThanAssertion" "lower" "greater" (.prior 7 d) (.lit (.num 3)))]),
+     ("h", .model "lib.T2"
+        [("pos", .tuple [("pos_0", .prior 3 d), ("pos_1", .prior 7 d)]),
+         ("r", .arith "MultiplePrior" "x" "y" (.prior 7 d) (.prior 5 d))] []),
+     ("fixed", .inst "lib.Mode" [("a", .lit (.num 2))])]
+    [.arith "GreaterThanLessThanEqualAssertion" "lower" "greater" (.prior 3 d) (.prior 9 d)]
+
+def witnessDflt : String → List (String × Scal Nat)
+  | "lib.Mode" => [("a", .num 1), ("mode", .str "x")]
+  | _ => []
+
+/-- the reader meets prior 5 inside `g`'s assertion before it meets prior 3: fresh ids follow that order;
+prior 9 occurs in the root's assertion only and still gets its own id -/
+example : pnLoadOrder (dictRT witnessDflt witnessPN 100) = [100, 101, 100, 100, 102, 100, 100, 101, 102, 103] := by
+  decide
+example : (walk (erase (fun _ => []) (dictRT witnessDflt witnessPN 100))).map (·.2) = [100, 102, 100, 100, 101] := by
+  decide
+example : paths (erase (fun _ => []) (dictRT witnessDflt witnessPN 100)) =
+    [["g", "a"], ["h", "pos", "pos_1"], ["h", "r", "left_"], ["h", "r", "right_"], ["h", "pos", "pos_0"]] := by decide
+example : pnLoadOrder (dictRTn witnessDflt witnessPN 100 50 3) = [200, 201, 200, 200, 202, 200, 200, 201, 202, 203] := by
+  decide
+/-- with `p7 = 1, p5 = 2, p3 = 4, p9 = 3`: `g`'s chain `p5 < p7 < 3` fails, the root's `p3 <= p9` fails too -/
+example : assertVerdicts (V := Nat) ⟨fun _ a b => a + b, fun _ a => a, fun a b => a ≤ b, fun a b => a < b, fun a b => a ≤ b⟩
+    (fun _ => []) (fun i => .num (if i = 7 then 1 else if i = 5 then 2 else if i = 3 then 4 else 3)) witnessPN = [false, false] := by
+  decide
+example : Nat.repeat pickleRT 3 witnessPN = witnessPN := identity_copy_roundtrips pickleRT (fun _ => rfl) 3 witnessPN
+example : NoArith (erase (fun _ => []) (PN.model "lib.P2" [("a", .prior 7 ⟨.gaussian, 0, 1, 2, 3⟩), ("b", .prior 7 ⟨.gaussian, 0, 1, 2, 3⟩)]
+    [.arith "GreaterThanLessThanAssertion" "lower" "greater" (.prior 5 ⟨.uniform, 0, 1, 0, 0⟩) (.prior 7 ⟨.gaussian, 0, 1, 2, 3⟩)] : PN Nat)) := by
+  simp [erase, eraseAttrs, NoArith, NoArithAttrs]
 
 end AF.C08
